@@ -242,6 +242,13 @@ class C02(Prop):
                                respawn=rng.choice([True, True, True, False]),
                                kinds=('obedient', 'slow', 'stubborn',
                                       'selfexit', 'selective'))
+        if rng.random() < 0.15:
+            # captured output: pipes and redirector registrations whose
+            # descriptor numbers are reused by the next worker, possibly of
+            # another watcher
+            for wc in cfg['watchers']:
+                if rng.random() < 0.8:
+                    wc['stream_objects'] = True
         n = rng.choice([2, 3, 4, 6, 8]) if tier == 'quick' else \
             rng.choice([3, 5, 8, 12, 16])
         ops = gen.gen_history(rng, cfg, n, self.REQS, self.WEIGHTS,
